@@ -12,6 +12,7 @@ import json
 import os
 import re
 import shutil
+import subprocess
 
 from checks import c07, frontend_common as fc
 from vf import build, diag, express, tlc
@@ -80,6 +81,31 @@ def run(ctx):
                                                 "emptyarg": any(a.strip() == "" for a in x["args"]),
                                                 "haslexeme": bool(m["lexeme"]) and x["code"] == m["code"] and lexeme_ok(m, x),
                                                 "msg": x["msg"][:120]} for x in ds]}))
+    # ---- a schema set spread over several files: the main schema in the file given, the schemas it uses found as
+    # <schema>.exp in the working directory.  Every diagnostic names one of those files, and the fault placed in the
+    # used schema is attributed to the file of that schema (not to the file that was looked up last).
+    split_lines = []
+    for tag, path, expect, m, c in ins:
+        if not (m.get("pos") == "in_used_schema" and c["schema"] and c["schema"].get("aux3")):
+            continue
+        text = open(path, encoding="latin-1").read()
+        i1, i2 = text.find("\nSCHEMA aux;"), text.find("\nSCHEMA aux2;")
+        if i1 < 0 or i2 < 0:
+            continue
+        d = mkdir(os.path.join(wd, "split", tag))
+        mainf, auxf, aux2f = os.path.join(d, "main_model.exp"), os.path.join(d, "aux.exp"), os.path.join(d, "aux2.exp")
+        open(mainf, "w", encoding="latin-1").write(text[:i1 + 1])
+        open(auxf, "w", encoding="latin-1").write(text[i1 + 1:i2 + 1])
+        open(aux2f, "w", encoding="latin-1").write(text[i2 + 1:])
+        for tool in tools:
+            q = subprocess.run([os.path.join(bdir, "bin", tool), mainf], cwd=d, stdout=subprocess.PIPE, stderr=subprocess.PIPE, timeout=120,
+                               env=dict(os.environ, EXPRESS_PATH="."))
+            ds = diag.parse(q.stderr.decode("latin-1"), tbl)
+            files = {os.path.basename(x["file"]) for x in ds}
+            faultfiles = {os.path.basename(x["file"]) for x in ds if x["code"] == m["code"]}
+            split_lines.append(json.dumps({"e": "SplitDiags", "tag": tag, "tool": tool, "mclass": m["class"], "code": m["code"],
+                                           "allowed": sorted(files <= {"main_model.exp", "aux.exp", "aux2.exp"} and ["ok"] or sorted(files)),
+                                           "faultfiles": sorted(faultfiles), "printed": [x["msg"][:100] for x in ds][:6]}))
     # self-check against vacuity: a mutant class that names a diagnostic family must provoke that family at least once,
     # or its 'quotes the offending lexeme' clause was never exercised
     printed = {}
@@ -145,10 +171,17 @@ def run(ctx):
                                  "mclass": m["class"], "refused": "usage:" in err1 and "unknown warning" in err1,
                                  "diags": slim(diag.parse(err1, tbl)), "rc": rc1 if -1 < rc1 < 1000 else 999, "plainrc": rc0}))
         nfault += 1
+    lines += split_lines
     got = fc.validate(ctx, lines, wd)
     byin = {t: (p, m, c) for t, p, e, m, c in ins}
     for rep in got:
         ev = rep["ev"]
+        if ev["e"] == "SplitDiags":
+            ctx.violation("%s|%s|%s" % (rep["what"], ev["mclass"], ev["tool"]),
+                          "%s: %s on the split form of mutant %s in_used_schema: diagnostics name files %s, the %s diagnostic names %s; printed: %s" % (
+                              rep["what"], ev["tool"], ev["mclass"], ev["allowed"], ev["code"], ev["faultfiles"], "; ".join(ev["printed"])[:300]),
+                          {"event": ev})
+            continue
         if ev["e"] == "Diags":
             path, m, c = byin[ev["tag"]]
             if True:
